@@ -262,6 +262,7 @@ func laExec(r *core.Run, c laCase) (*core.Fail, string) {
 	var dstBuilt *atlas.Built
 	var dstSnap atlas.Snap
 	aliased := "" // "a" / "b": the destination is that operand
+	misfit := false
 	nOut := len(want.El)
 	if invalid && c.mode != "safe" {
 		return nil, "skip:no-defined-result"
@@ -285,6 +286,20 @@ func laExec(r *core.Run, c laCase) (*core.Fail, string) {
 			copy(dstOld, el)
 			aliased = c.mode[len(c.mode)-1:]
 		}
+		if strings.HasSuffix(c.mode, ":misfit") {
+			// a destination with one row more than the result has: there is no way to put the result into it
+			if len(want.Shape) == 0 {
+				return nil, "skip:scalar-result"
+			}
+			ms := ref.CopyInts(want.Shape)
+			ms[0]++
+			mv := make([]interface{}, ref.Prod(ms))
+			for i := range mv {
+				mv[i] = d.Code(i%4 + 1)
+			}
+			dst = mkContig(d, ms, mv)
+			misfit = true
+		}
 		if strings.HasSuffix(c.mode, ":T") {
 			// a lazily transposed destination
 			db, err := atlas.Build(d, want.Shape, dstOld, "T")
@@ -305,8 +320,11 @@ func laExec(r *core.Run, c laCase) (*core.Fail, string) {
 			dstSnap = db.Snapshot()
 		}
 		switch c.mode {
-		case "reuse", "reuse:T", "reuse:S", "reuse=a", "reuse=b":
+		case "reuse", "reuse:T", "reuse:S", "reuse=a", "reuse=b", "reuse:misfit":
 			opts = append(opts, tensor.WithReuse(dst))
+		case "unsafe+reuse", "unsafe+reuse:S", "unsafe+reuse:misfit":
+			// the unsafe option has nothing to overwrite in a product: the destination is the reuse tensor, judged as such
+			opts = append(opts, tensor.UseUnsafe(), tensor.WithReuse(dst))
 		case "incr", "incr:T", "incr:S", "incr=a", "incr=b":
 			opts = append(opts, tensor.WithIncr(dst))
 		case "reuse+incr":
@@ -427,6 +445,14 @@ func laExec(r *core.Run, c laCase) (*core.Fail, string) {
 	if invalid {
 		return core.F("accepted-invalid", "inv", "%s has no defined result (vector operands of unequal length) but was computed", what), o.Class
 	}
+	if misfit {
+		return core.F("accepted-invalid", "misfit", "%s: the destination of shape %v cannot hold a result of shape %v but the call succeeded (returned shape %v)", what, dst.Shape(), want.Shape, func() interface{} {
+			if res != nil {
+				return res.Shape()
+			}
+			return nil
+		}()), o.Class
+	}
 	approx := c.vs == "frac" || d.Class == ref.CComplex
 	if c.op == "Inner" || c.op == "Trace" {
 		if scalarRes == nil {
@@ -454,7 +480,7 @@ func laExec(r *core.Run, c laCase) (*core.Fail, string) {
 	if f := cmpArr(res, want, what, approx); f != nil {
 		return f, o.Class
 	}
-	if dst != nil && res == dst && strings.HasPrefix(c.mode, "reuse") && c.mode != "reuse+incr" && aliased == "" {
+	if dst != nil && res == dst && (strings.HasPrefix(c.mode, "reuse") || strings.HasPrefix(c.mode, "unsafe+reuse")) && c.mode != "reuse+incr" && aliased == "" {
 		// the destination now holds a plain result: nothing of its earlier state (a pending lazy transpose) is left that
 		// a later UT - or a later product that looks at that bookkeeping - would act on
 		call(func() error { res.UT(); return nil })
@@ -500,7 +526,7 @@ func runC09(r *core.Run) {
 	quick := isQuick(r)
 	maxd := 3
 	dts := ref.FC4
-	modes := []string{"safe", "reuse", "incr", "reuse+incr", "reuse:T", "incr:T", "reuse:S", "incr:S", "reuse=a", "reuse=b", "incr=a", "incr=b"}
+	modes := []string{"safe", "reuse", "incr", "reuse+incr", "reuse:T", "incr:T", "reuse:S", "incr:S", "reuse=a", "reuse=b", "incr=a", "incr=b", "unsafe+reuse", "unsafe+reuse:S", "reuse:misfit", "unsafe+reuse:misfit"}
 	lays := atlas.L5 // incl. Cl, the CLONE of a sliced view: strided storage that is not a view
 	vss := []string{"int", "frac"}
 	r.SetBound("dims", fmt.Sprintf("every dimension in 1..%d; rank-3 tensors for TensorMul/Dot", maxd))
